@@ -68,15 +68,27 @@ def run(R):
         R.saw(top)
         fam = [b for b in tonic.bodies if b.path.startswith(top.path) and b.kind in ('fn', 'closure')]
         # unwind the or_else chain from the final expect()
-        bb, t = top.call1(name='expect')
-        term = top.origin(t['args'][0])
+        loop_form = None
+        if not top.calls(name='expect'):
+            # the ladder as data walked by a loop: for (value, unit) in [(..); 6] { if value <= MAX { return format!(..) } } panic!()
+            arrs = [(bb_, i_, [top.origin(o_) for o_ in ops_]) for bb_, i_, p_, a_, ops_ in mirlib.aggregates(top) if a_.get('kind') == 'array'
+                    and all(strip_refs(top.origin(o_))[0] == 'agg' and strip_refs(top.origin(o_))[1].get('kind') == 'tuple' for o_ in ops_)]
+            if len(arrs) != 1:
+                raise CheckError('UNRECOGNISED: duration_to_grpc_timeout has neither the or_else(..).expect(..) ladder nor one candidate array (%d arrays of tuples)' % len(arrs))
+            loop_form = arrs[0]
+            term = ('agg', {'kind': 'array'}, loop_form[2])
+        else:
+            bb, t = top.call1(name='expect')
+            term = top.origin(t['args'][0])
         chain = []
         while is_call(term, name='or_else'):
             chain.append(term[2][1])
             term = term[2][0]
         chain.reverse()
         table_form = None
-        if not chain and not is_call(term, name='try_format'):
+        if loop_form:
+            table_form = (None, term)
+        elif not chain and not is_call(term, name='try_format'):
             # the ladder as data: [(value in unit, unit); 6].into_iter().find(|(v, _)| v <= MAX).map(format)
             fnd = [x for x in find_terms(term, lambda x: is_call(x, name='find'))]
             arr = [x for x in find_terms(term, lambda x: x and x[0] == 'agg' and x[1].get('kind') == 'array')] if fnd else []
@@ -135,7 +147,34 @@ def run(R):
             R.check(WRITER_NANOS[fn] * div == NANOS[u], 'C09.R1', 'scale:%s' % u, site(cl), '%s/%d counts units of %d ns; unit %s is %d ns' % (fn, div, WRITER_NANOS[fn] * div, u, NANOS[u]))
         R.floor('C09.R1', 'writer rows', len(ladder), 6)
         okg = False
-        if table_form:
+        if loop_form:
+            # the array's own iterator is walked in order; the first entry with value <= 99_999_999 is formatted and returned
+            is_next = lambda x: is_call(x, name='next') and find_terms(x, lambda y: is_call(y, name='into_iter') and find_terms(y, lambda z: z and z[0] == 'agg' and z[1].get('kind') == 'array'))
+            for s_ in [b_ for b_ in sorted(top.live_blocks()) if top.term(b_)['k'] == 'switch']:
+                o = mirlib.norm_cmp(mirlib.simplify(top.origin(top.term(s_)['on'])))
+                if not (o and o[0] == 'bin' and o[1] in ('Ge', 'Gt')):
+                    continue
+                lim, v = strip_refs(o[2]), strip_refs(o[3])
+                is_val = v[0] == 'field' and str(v[2]) in ('0', '.0') and find_terms(v, is_next)
+                if not is_val or const_value(tonic, lim) != sp['max_value'] + (1 if o[1] == 'Gt' else 0):
+                    continue
+                edges = top.switch_edges(s_)
+                true_t = [tg for tg, vals in edges.items() if top.edge_truth(s_, vals) is True]
+                false_t = [tg for tg, vals in edges.items() if top.edge_truth(s_, vals) is False]
+                nexts = [b_ for b_, t_ in top.calls(name='next')]
+                # accepted -> a formatted string is returned without trying another candidate; refused -> the next candidate is tried
+                acc = top.reach_ps(true_t, removed={s_}) if true_t else set()
+                rej = top.reach_ps(false_t, removed={s_}) if false_t else set()
+                fmt_acc = [b_ for b_, t_ in top.calls(name='format') if b_ in acc]
+                okg = bool(fmt_acc) and not any(n_ in acc for n_ in nexts) and any(n_ in rej for n_ in nexts) and not any(b_ in rej and b_ not in acc for b_ in fmt_acc)
+                R.check(okg, 'C09.R1', 'guard-8-digits', site(top, s_), 'for (value, unit) in candidates: value <= %d -> return format!(value, unit), else try the next: %s' % (sp['max_value'], show(o)[:80]))
+                for fb_ in fmt_acc:
+                    fa = top.origin(top.term(fb_)['args'][0])
+                    uses = find_terms(fa, lambda x: x and x[0] == 'field' and str(x[2]) in ('0', '1', '.0', '.1') and find_terms(x, is_next))
+                    R.check({str(x[2]).lstrip('.') for x in uses} == {'0', '1'}, 'C09.R1', 'formats-the-tested-candidate', site(top, fb_), 'the string is made of the value and the unit of the candidate just tested')
+            sws = []
+            tf = top
+        elif table_form:
             # first entry (in array order) whose value is <= 99_999_999: find(|(value, _)| value <= MAX) on the array's own iterator
             fc = table_form[0]
             recv = strip_refs(fc[2][0])
@@ -177,41 +216,47 @@ def run(R):
         R.saw(b)
         hdr = b.call1(pat='HeaderMap', name='get')
         R.eq(const_val(b.origin(hdr[1]['args'][1])), spec('wire')['timeout_header'], 'C09.R2', 'header-name', site(b, hdr[0]), 'header looked up')
-        eqs = [r for r in mirlib.str_eq_chain(b) if isinstance(r['value'], str) and len(r['value']) == 1]
-        # result local: the Duration that flows into Some(..) -> Ok(..)
-        dur_local = None
-        for bb, i, p, a, ops in mirlib.aggregates(b, 'option::Option', 'Some'):
-            dur_local = mirlib.root_local(b, ops[0])
-        if dur_local is None:
-            raise CheckError('UNRECOGNISED: no Some(duration) in try_parse_grpc_timeout')
-        eff = writers_of(b, dur_local)
-        errs = [bb for bb, i, p, a, ops in mirlib.aggregates(b, 'result::Result', 'Err') if p['l'] == 0]
-        start = min((r['bb'] for r in eqs), key=lambda x: len(b.dominators().get(x, ()))) if eqs else 0
-        rows = decision_rows(b, start, set(eff) | set(errs))
+        # by feasible path: the unit string the path matched and the value returned at its end (phis resolved along the path) — the
+        # same table whether the unit selects the constructor directly or through an intermediate enum / helper
+        rows = mirlib.path_rows(b, stop=set(writers_of(b, 0)))
         default_ok = None
-        for cons, bb in rows:
-            d = cons_dict(cons)
-            unit = [v[1] for k, v in d.items() if v[0] == '==' and isinstance(v[1], str)]
-            if bb in errs:
-                if not unit:
+        for cons, path in rows:
+            bb = path[-1]
+            unit = [v for k, op, v in cons if op == '==' and isinstance(v, str) and len(v) == 1]
+            refused = {v for k, op, v in cons if op == '!=' and isinstance(v, str) and len(v) == 1}
+            val = strip_refs(mirlib.simplify(b.ret_on_path(path)))
+            if is_call(val, name='from_residual'):
+                continue  # `?` on a failure: an Err row that is not the unknown-unit default
+            if not (val and val[0] == 'agg'):
+                R.bad('C09.R2', 'row-shape', site(b, bb), 'unrecognised return value %s' % show(val)[:120], kind='UNRECOGNISED')
+                continue
+            if val[1].get('variant') == 'Err':
+                if not unit and refused >= set(units):
                     default_ok = True
-                else:
-                    R.bad('C09.R2', 'unit-err:%s' % unit[0], site(b, bb), 'unit %r yields Err' % unit[0])
                 continue
-            w = block_writes(b, bb, dur_local)
-            if not unit or not w or w[0][0] != 'call':
-                R.bad('C09.R2', 'row-shape', site(b, bb), 'unrecognised row %r -> %r' % (cons, w), kind='UNRECOGNISED')
+            inner = strip_refs(val[2][0]) if val[1].get('variant') == 'Ok' and val[2] else None
+            if inner and inner[0] == 'agg' and inner[1].get('variant') == 'None':
+                continue  # no header
+            if not (inner and inner[0] == 'agg' and inner[1].get('variant') == 'Some'):
+                R.bad('C09.R2', 'row-shape', site(b, bb), 'unrecognised return value %s' % show(val)[:120], kind='UNRECOGNISED')
                 continue
-            ctor = w[0][3]
-            arg = strip_casts(w[0][2][0])
+            w = strip_refs(inner[2][0])
+            if not unit or not is_call(w):
+                R.bad('C09.R2', 'row-shape', site(b, bb), 'unrecognised row %r -> %s' % (unit, show(w)[:120]), kind='UNRECOGNISED')
+                continue
+            ctor = w[3]
+            arg = strip_casts(w[2][0])
             mul = 1
             if arg[0] == 'field' and arg[1][0] == 'bin' and arg[1][1] in ('MulWithOverflow', 'Mul'):
-                mul = const_val(arg[1][3]) if const_val(arg[1][3]) is not None else const_val(arg[1][2])
-                arg = arg[1][2] if const_val(arg[1][3]) is not None else arg[1][3]
+                k3, k2 = const_value(tonic, arg[1][3]), const_value(tonic, arg[1][2])
+                mul = k3 if k3 is not None else k2
+                arg = arg[1][2] if k3 is not None else arg[1][3]
             elif arg[0] == 'bin' and arg[1] == 'Mul':
-                mul = const_val(arg[3])
+                mul = const_value(tonic, arg[3])
                 arg = arg[2]
-            R.check(mentions_call(arg, name='parse'), 'C09.R2', 'value-from-parse:%s' % unit[0], site(b, bb), 'constructor argument = %s' % show(arg))
+            R.check(mentions_call(arg, name='parse'), 'C09.R2', 'value-from-parse:%s' % unit[0], site(b, bb), 'constructor argument = %s' % show(arg)[:120])
+            if unit[0] in reader and reader[unit[0]][:2] != (ctor, mul):
+                R.bad('C09.R2', 'row-ambiguous:%s' % unit[0], site(b, bb), 'unit %s is parsed two ways: %r and %r' % (unit[0], reader[unit[0]][:2], (ctor, mul)))
             reader[unit[0]] = (ctor, mul, bb)
         for u, su in units.items():
             got = reader.get(u)
